@@ -111,6 +111,11 @@ def _create_files(  # noqa: C901, PLR0912, PLR0913
         if links is None and isinstance(storage_obj, ObjectStorage):
             links = storage_obj.odb.cache_types
 
+        # parents that exist only implicitly in the index (no directory entry)
+        # are not in dirs_create, and linking does not create them
+        for parent in {fs.parent(dest_path) for dest_path in dest_paths}:
+            fs.makedirs(parent, exist_ok=True)
+
         transfer(
             src_fs,
             list(src_paths),
